@@ -1012,6 +1012,39 @@ func levelKind() *Kind {
 	return k
 }
 
+func exprPointKind() *Kind {
+	typ := reflect.TypeOf(ExprPoint{})
+	c := func(p ExprPoint) string { return fmt.Sprintf("ep:%d,%d", p.X, p.Y) }
+	k := &Kind{Name: "custom:ExprPoint(GormValuer)", Group: "custom", Type: typ, Family: FOpaque, Special: true, ZeroCanon: c(ExprPoint{})}
+	k.gen = func(t *rapid.T, label string) (reflect.Value, bool) {
+		if rapid.IntRange(0, 3).Draw(t, label+".eb") == 0 {
+			return reflect.ValueOf(rapid.SampledFrom([]ExprPoint{{}, {math.MinInt32, math.MaxInt32}, {-1, 0}}).Draw(t, label+".ev")), true
+		}
+		return reflect.ValueOf(ExprPoint{rapid.Int32().Draw(t, label+".x"), rapid.Int32().Draw(t, label+".y")}), false
+	}
+	k.canon = func(v reflect.Value) string { return c(v.Interface().(ExprPoint)) }
+	k.canonRaw = func(raw interface{}) (string, error) {
+		if p, ok := raw.(ExprPoint); ok {
+			return c(p), nil
+		}
+		s, ok := rawString(raw)
+		if !ok {
+			return "", fmt.Errorf("ExprPoint column holds %T(%v)", raw, raw)
+		}
+		var p ExprPoint
+		if err := p.Scan(s); err != nil {
+			return "", err
+		}
+		return c(p), nil
+	}
+	k.dbValue = func(v reflect.Value) interface{} {
+		p := v.Interface().(ExprPoint)
+		return fmt.Sprintf("%d,%d", p.X, p.Y)
+	}
+	k.distinct = func(i int) reflect.Value { return reflect.ValueOf(ExprPoint{int32(i), 7}) }
+	return k
+}
+
 func stampKind() *Kind {
 	typ := reflect.TypeOf(Stamp{})
 	k := &Kind{Name: "custom:Stamp", Group: "custom", Type: typ, Family: FOpaque, Special: true, ZeroCanon: cTime(time.Time{})}
@@ -1303,16 +1336,17 @@ var (
 	KNullTime    = nullKind("sql.NullTime", reflect.TypeOf(sql.NullTime{}), KTime)
 	Nullables    = []*Kind{KNullString, KNullInt64, KNullInt32, KNullFloat64, KNullBool, KNullTime}
 
-	KLabel    = labelKind()
-	KPoint    = pointKind()
-	KAttrs    = attrsKind()
-	KPtrPoint = pointerKind(KPoint)
-	KPtrLabel = pointerKind(KLabel)
-	KStrList  = strListKind()
-	KUUID     = uuidKind()
-	KLevel    = levelKind()
-	KStamp    = stampKind()
-	Customs   = []*Kind{KLabel, KPoint, KAttrs, KPtrPoint, KPtrLabel, KStrList, KUUID, KLevel, KStamp}
+	KLabel     = labelKind()
+	KPoint     = pointKind()
+	KAttrs     = attrsKind()
+	KPtrPoint  = pointerKind(KPoint)
+	KPtrLabel  = pointerKind(KLabel)
+	KStrList   = strListKind()
+	KUUID      = uuidKind()
+	KLevel     = levelKind()
+	KStamp     = stampKind()
+	KExprPoint = exprPointKind()
+	Customs    = []*Kind{KLabel, KPoint, KAttrs, KPtrPoint, KPtrLabel, KStrList, KUUID, KLevel, KStamp, KExprPoint}
 
 	KDeletedAt   = deletedAtKind()
 	KIgnoredDoc  = ignoredKind("Doc", reflect.TypeOf(Doc{}), func(t *rapid.T, label string) reflect.Value { d, _ := genDoc(t, label); return reflect.ValueOf(d) }, func(v reflect.Value) string { return jsonCanon(v.Interface()) })
